@@ -244,6 +244,25 @@ func (e *EvalEnv) Eval(x ast.Expr) (Val, error) {
 }
 
 func (e *EvalEnv) ident(name string) (Val, error) {
+	// local_<name>: the source-level local variable <name> even when the name is a contract keyword (result, ...)
+	if strings.HasPrefix(name, "local_") && e.Fr != nil {
+		if v, ok := e.Vars[name[6:]]; ok {
+			return v, nil // loop-header phi bound by the loop environment
+		}
+		if vals := e.Fr.Names[name[6:]]; len(vals) > 0 {
+			for i := len(vals) - 1; i >= 0; i-- {
+				if _, isPhi := vals[i].(*ssa.Phi); isPhi {
+					if val, ok := e.Fr.Env[vals[i]]; ok {
+						return val, nil
+					}
+				}
+			}
+			if val, ok := e.Fr.Env[vals[len(vals)-1]]; ok {
+				return val, nil
+			}
+		}
+		return nil, fmt.Errorf("no local variable %s in scope", name[6:])
+	}
 	switch name {
 	case "true":
 		return TV{T: TTrue, Typ: types.Typ[types.Bool]}, nil
@@ -1011,6 +1030,25 @@ func (e *EvalEnv) call(x *ast.CallExpr) (Val, error) {
 			bvCmp("bvule", bvBin("bvadd", SlOff(at.T), SlCap(at.T)), SlOff(bt.T)),
 			bvCmp("bvule", bvBin("bvadd", SlOff(bt.T), SlCap(bt.T)), SlOff(at.T)))
 		return TV{T: d, Typ: types.Typ[types.Bool]}, nil
+	case "samestart":
+		// samestart(s, t): the two slices start at the same element of the same backing array and have the same capacity
+		if len(x.Args) != 2 {
+			return nil, fmt.Errorf("samestart(s, t)")
+		}
+		av, err := e.Eval(x.Args[0])
+		if err != nil {
+			return nil, err
+		}
+		bv, err := e.Eval(x.Args[1])
+		if err != nil {
+			return nil, err
+		}
+		at, ok1 := av.(TV)
+		bt, ok2 := bv.(TV)
+		if !ok1 || !ok2 || at.T.Sort != SSlice || bt.T.Sort != SSlice {
+			return nil, fmt.Errorf("samestart needs two slices")
+		}
+		return TV{T: And(Eq(SlBase(at.T), SlBase(bt.T)), Eq(SlOff(at.T), SlOff(bt.T)), Eq(SlCap(at.T), SlCap(bt.T))), Typ: types.Typ[types.Bool]}, nil
 	case "sameblock":
 		// sameblock(s, t): the two slices share their backing array
 		if len(x.Args) != 2 {
